@@ -460,6 +460,11 @@ var ruleLineThresholds = &core.Rule{ID: "R13.3", Min: 8,
 			}
 		}
 		s.Check(isParam, "delimiter is the helper's parameter", c.Pos(g.Pos()), "r.Comma = comma", "the csv reader's delimiter is not the one the detector asked for")
+		// lines starting with # are comments (the property speaks of non-comment lines)
+		{
+			v, set := stored["Comment"]
+			s.Check(set && core.IsConstInt(v, '#'), "comment lines are skipped", c.Pos(g.Pos()), "r.Comment = '#'", "the csv reader is not told that lines starting with # are comments: a table with a comment line has a record of a different field count and loses its type")
+		}
 		if v, ok := stored["TrimLeadingSpace"]; ok {
 			b, _ := core.ConstBool(v)
 			s.Check(!b, "no leading-space trimming", c.Pos(g.Pos()), "false", "TrimLeadingSpace changes field counting")
